@@ -108,10 +108,15 @@ def real_run(case):
         n0 = len(log)
         op2 = list(op)
         try:
+            touched = None
             if kind == "sim":
                 sim.simulate(float(F(op[1])), steps=op[2])
             elif kind == "tc":
-                sim.simulate_time_course([float(F(t)) for t in op[1]])
+                arr = np.array([float(F(t)) for t in op[1]], dtype=float)
+                keep = arr.copy()
+                sim.simulate_time_course(arr)
+                if not np.array_equal(arr, keep):
+                    touched = "caller's time-point array was modified"
             elif kind == "steady":
                 sim.simulate_to_steady_state()
             elif kind == "par":
@@ -132,11 +137,17 @@ def real_run(case):
                     sim.simulate_protocol(prot, time_points_per_step=op[2])
             elif kind == "ptc":
                 prot = make_protocol([(float(F(d)), {k: float(F(v)) for k, v in kv}) for d, kv in op[1]])
-                sim.simulate_protocol_time_course(
-                    prot, np.array([float(F(t)) for t in op[2]], dtype=float), time_points_as_relative=bool(op[3]))
+                arr = np.array([float(F(t)) for t in op[2]], dtype=float)
+                keep, keep_prot = arr.copy(), prot.copy(deep=True)
+                sim.simulate_protocol_time_course(prot, arr, time_points_as_relative=bool(op[3]))
+                # the caller's arguments are not the library's to change (a reused grid would then be wrong)
+                if not np.array_equal(arr, keep):
+                    touched = "caller's time-point array was modified"
+                elif not prot.equals(keep_prot):
+                    touched = "caller's protocol table was modified"
             else:
                 raise AssertionError(kind)
-            outs.append(None)
+            outs.append(None if touched is None else "input-modified: " + touched)
         except (ValueError, IndexError, KeyError) as e:
             outs.append(type(e).__name__)
         except Exception as e:  # noqa: BLE001
